@@ -32,7 +32,7 @@ RULE = (
 ASSUMPTIONS = [
     "the clause 'errors.json contains the aborting error' is asserted only when the effective policy collects errors (C05: an error record exists iff 'collect')",
     "members that never started (serial run aborted in an earlier member) are not required to have a directory",
-    "in a breadth-first abort only the aborting member is required to say completed: false; members ordered before it may legitimately have finished on that record",
+    "in a breadth-first abort the aborting member and the members ordered after it whose scan reaches the abort line are required to say completed: false; members ordered before it may legitimately have finished on that record",
 ]
 REAL = REAL_ALL
 STUB = STUB_ALL + c09.STUB[-1:]
@@ -307,6 +307,12 @@ def execute(sc):
                         out.v("error_collected_without_collect", f"{mw}: errors.json {snap['errors']!r:.200} although the policy does not collect", **facts)
                     if snap["completed"] is not False:
                         out.v("aborted_member_completed", f"{mw}: manifest says completed: {snap['completed']} for the member the run aborted in", **facts)
+                elif byline and j > i:
+                    # breadth-first: a member ordered after the aborting one never considered line L; if its scan
+                    # reaches L or beyond it was cut short
+                    Sj = scanned(sc, j)
+                    if Sj and Sj[-1] >= L and snap["completed"] is not False:
+                        out.v("later_member_completed", f"{mw} (ordered after the aborting member, scan reaches line {Sj[-1]}) was cut short before line {L} but its manifest says completed: {snap['completed']}", **facts)
                 elif not byline:
                     # finished earlier: must equal the fault-free run's record
                     r0 = ref[f"m{j}"]
